@@ -32,6 +32,10 @@ func HLocation() {
 	loc := NewLocation(f, bytes.Index(idx)) // must not panic for any index (contract)
 	vAssert(loc.File == f, "c07-location-file")
 	vAssert(int(loc.Index) == idx, "c07-location-index")
+	if n == 0 && idx == 0 {
+		// the only position of an empty file
+		vAssert(int(loc.Line) == 1 && int(loc.Column) == 1 && loc.Quote == "", "c07-empty-file-position")
+	}
 	if idx > n || n == 0 {
 		vReach("beyond-end")
 		vObserve("loc", idx, int(loc.Line), int(loc.Column), loc.Quote)
